@@ -35,6 +35,19 @@ fn main() {
             let f = args.get(2).unwrap_or_else(|| usage());
             std::process::exit(run::replay_entry(&props, Path::new(f)));
         }
+        Some("debug-run") => {
+            // debug-run <program-file> [witness-module-file]
+            use simfony::parse::ParseFromStr;
+            let text = std::fs::read_to_string(&args[2]).expect("program file");
+            let wits = match args.get(3) {
+                Some(f) => simfony::WitnessValues::parse_from_str(&std::fs::read_to_string(f).expect("witness file")).expect("witness module"),
+                None => simfony::WitnessValues::default(),
+            };
+            for debug in [false, true] {
+                let out = vcheck::pipe::run_full(&text, simfony::Arguments::default(), wits.shallow_clone(), debug, &vcheck::pipe::dummy_env());
+                println!("debug={debug}: {}", out.brief());
+            }
+        }
         Some("__shard") => {
             // __shard <prop> <stream> <tier> <seed> <shard> <nshards> <trace>
             let p = props.iter().find(|p| p.id == args[2]).expect("property");
